@@ -315,3 +315,114 @@ def rule_no_sharing_idiom(ck, cx, rule, class_qns, why, methods=('__init__',)):
             if not found:
                 ck.ob(rule, fn.qn, 'no sharing idiom (fromkeys / [x]*n / repeat over a mutable value) in the constructor', True)
     return n
+
+
+# ------------------------------------------------------------------------------------------------------------------------------
+# memoisation: a cached result is sound only for a pure function of hashable arguments that hands out immutable values
+
+MEMO_DECORATORS = ('lru_cache', 'cache', 'cached_property', 'memoize', 'memoized', 'cached')
+
+
+def _memo_decorator(d):
+    t = U(d.func if isinstance(d, ast.Call) else d)
+    return t.split('.')[-1] in MEMO_DECORATORS
+
+
+def unsafe_memo(fn):
+    """why a memoising decorator on `fn` is unsound, or None: it is a method (the result depends on the receiver's state, which is
+    not part of the key, or the receiver is kept alive and shared), it returns a mutable container (every caller gets the SAME
+    object), or it has no decorator at all"""
+    decos = [d for d in fn.node.decorator_list if _memo_decorator(d)]
+    if not decos:
+        return None
+    if fn.cls is not None and not fn.is_staticmethod:
+        reads = sorted({n.attr for n in ast.walk(fn.node) if isinstance(n, ast.Attribute) and isinstance(n.value, ast.Name) and n.value.id in ('self', 'cls')})
+        return 'it is a method: the cached value ignores later changes of self.%s' % (', self.'.join(reads[:3]) if reads else '<state>')
+    for r in ast.walk(fn.node):
+        if isinstance(r, ast.Return) and r.value is not None:
+            v = r.value
+            names = {}
+            for n in ast.walk(fn.node):
+                if isinstance(n, ast.Assign) and len(n.targets) == 1 and isinstance(n.targets[0], ast.Name):
+                    names.setdefault(n.targets[0].id, []).append(n.value)
+            vs = [v] + (names.get(v.id, []) if isinstance(v, ast.Name) else [])
+            if any(isinstance(x, (ast.List, ast.Dict, ast.Set, ast.ListComp, ast.DictComp, ast.SetComp)) or
+                   (isinstance(x, ast.Call) and U(x.func) in ('list', 'dict', 'set', 'bytearray')) for x in vs):
+                return 'it returns a mutable container: every caller receives the same object and a caller that modifies it changes the result for all later calls'
+    return None
+
+
+def rule_no_unsafe_memo(ck, cx, rule, module_names, why):
+    """no function of the given modules carries a memoising decorator that is unsound for it (expected count on a clean tree: 0;
+    an embedded positive example is analysed on every run)"""
+    n = 0
+    for mn in module_names:
+        m = cx.idx.mod(mn)
+        fns = list(m.funcs.values()) + [f for c in m.classes.values() for f in c.methods.values()]
+        for fn in fns:
+            n += 1
+            bad = unsafe_memo(fn)
+            if bad:
+                ck.ob(rule, fn.qn, 'no unsound memoisation', False, detail='unsound-memoisation', loc=cx.floc(fn),
+                      message='%s is memoised but %s — %s' % (fn.qn, bad, why))
+    ck.saw('modules', ','.join(module_names))
+    ck.ob(rule, 'memoisation', '%d functions of %s carry no unsound memoising decorator' % (n, ', '.join(module_names)), True)
+    # hand-written caches: a module-level container that function bodies fill or rebind is state shared by every object and call
+    for mn in module_names:
+        m = cx.idx.mod(mn)
+        glob = {}
+        for st_ in m.tree.body:
+            if isinstance(st_, ast.Assign) and len(st_.targets) == 1 and isinstance(st_.targets[0], ast.Name):
+                v = st_.value
+                if isinstance(v, (ast.Dict, ast.List, ast.Set, ast.DictComp, ast.ListComp, ast.SetComp)) or \
+                        (isinstance(v, ast.Call) and U(v.func).split('.')[-1] in ('dict', 'list', 'set', 'OrderedDict', 'defaultdict', 'WeakKeyDictionary', 'WeakValueDictionary', 'deque', 'bytearray')):
+                    glob[st_.targets[0].id] = st_
+        fns = list(m.funcs.values()) + [f for c in m.classes.values() for f in c.methods.values()]
+        for fn in fns:
+            local = set(fn.params)
+            declared = set()
+            for x in ast.walk(fn.node):
+                if isinstance(x, ast.Global):
+                    declared |= set(x.names)
+                elif isinstance(x, ast.Assign):
+                    for t in x.targets:
+                        for el in (t.elts if isinstance(t, (ast.Tuple, ast.List)) else [t]):
+                            if isinstance(el, ast.Name):
+                                local.add(el.id)
+                elif isinstance(x, (ast.For, ast.comprehension)):
+                    for el in ast.walk(x.target):
+                        if isinstance(el, ast.Name):
+                            local.add(el.id)
+            local -= declared
+            for x in ast.walk(fn.node):
+                hit = None
+                if isinstance(x, (ast.Assign, ast.AugAssign, ast.Delete)):
+                    tg = x.targets if isinstance(x, (ast.Assign, ast.Delete)) else [x.target]
+                    for t in tg:
+                        base = t
+                        while isinstance(base, ast.Subscript):
+                            base = base.value
+                        if isinstance(base, ast.Name) and base.id in glob and base.id not in local and (isinstance(t, ast.Subscript) or base.id in declared):
+                            hit = base.id
+                elif isinstance(x, ast.Call) and isinstance(x.func, ast.Attribute) and x.func.attr in MUTATORS:
+                    base = x.func.value
+                    while isinstance(base, ast.Subscript):
+                        base = base.value
+                    if isinstance(base, ast.Name) and base.id in glob and base.id not in local:
+                        hit = base.id
+                if hit:
+                    ck.ob(rule, fn.qn, 'no module-level container is filled or rebound from a function body', False,
+                          detail='module-level-cache %s' % hit, loc=cx.floc(fn, x),
+                          message='%s writes the module-level container `%s`: what one object / call leaves there is seen by every other object and later '
+                                  'call in the process — %s' % (fn.qn, hit, why))
+    # positive example
+    from .loader import Func, Mod
+    src = "import functools\nclass K:\n    @functools.lru_cache(maxsize=None)\n    def size(self):\n        return self._n\n@functools.lru_cache()\ndef f(x):\n    out = []\n    return out\n"
+    tree = ast.parse(src)
+    k = tree.body[1]
+    m0 = Mod('example', '<example>', tree, src)
+    from .loader import Cls
+    kc = Cls(m0, k)
+    flagged = unsafe_memo(kc.methods['size']) is not None and unsafe_memo(Func(m0, tree.body[2])) is not None
+    ck.positive(rule, flagged, 'lru_cache on a method / on a function returning a list')
+    return n
